@@ -1,4 +1,760 @@
+/-
+  C14 — Local-file store persists, refreshes and shares objects coherently.
+  Model: `Basyx/Model/FileStore.lean`, part A (sequential world: directory, heap, one weak cache per store instance)
+  and part C (two threads of one instance at the lock/cache yield points).  Helper lemmas and the representation
+  invariant `Inv` are in `Basyx/Lemmas/FileStore.lean`.
+
+  Shape of the sequential claim: refinement.  Every concrete call is mapped to an abstract event (what was asked of
+  the store and what the caller saw, object identities erased, contents read off the returned objects) and the
+  sequence of events of EVERY history is a run of the abstract map `Id → Option Ver`.  Identity is a separate
+  invariant (`Pinned`) over histories.
+-/
 import Basyx.Model.FileStore
+import Basyx.Lemmas.FileStore
 namespace Basyx.FileStore
-theorem c14_placeholder : True := trivial
+
+/-! ## The specification: a persistent map from identifier to document -/
+
+abbrev M := Id → Option Ver
+def upd (m : M) (i : Id) (v : Option Ver) : M := fun j => if j = i then v else m j
+def abs (w : W) : M := fun i => AList.get i w.disk
+
+/-- `l` enumerates the map: every stored document exactly once -/
+def Enumerates (l : List (Id × Ver)) (m : M) : Prop :=
+  (AList.keys l).Nodup ∧ ∀ i v, (i, v) ∈ l ↔ m i = some v
+
+/-- What a call asked of the store and what the caller saw, with object identities erased:
+    contents are those of the returned / refreshed objects *after* the call. -/
+inductive Ev where
+  | add (i : Id) (v : Ver) (ok : Bool)       -- add of an object with id i and content v; ok = false: KeyError
+  | commit (i : Id) (v : Ver)                -- commit of a stored object
+  | read (i : Id) (res : Option Ver)         -- retrieval: content of the returned object; none: KeyError
+  | refresh (i : Id) (res : Option Ver)      -- update() of a stored object: its content afterwards; none: document gone
+  | discard (i : Id) (ok : Bool)
+  | contains (i : Id) (b : Bool)
+  | len (n : Nat)
+  | iter (l : List (Id × Ver))               -- identifiers and contents of the objects iteration yielded
+  | internal                                 -- nothing asked of the store (object construction, local edit, drop, gc, …)
+  | failed                                   -- an outcome the specification has no room for
+deriving Repr, DecidableEq
+
+/-- The reference behaviour of a persistent map (one step). -/
+inductive SpecRel : M → Ev → M → Prop
+  | addOk (m i v) : m i = none → SpecRel m (.add i v true) (upd m i (some v))
+  | addDup (m i v) : m i ≠ none → SpecRel m (.add i v false) m
+  | commit (m i v) : SpecRel m (.commit i v) (upd m i (some v))
+  | read (m i) : SpecRel m (.read i (m i)) m
+  | refresh (m i) : SpecRel m (.refresh i (m i)) m
+  | discardOk (m i) : m i ≠ none → SpecRel m (.discard i true) (upd m i none)
+  | discardMissing (m i) : m i = none → SpecRel m (.discard i false) m
+  | contains (m i) : SpecRel m (.contains i (m i).isSome) m
+  | len (m l) : Enumerates l m → SpecRel m (.len l.length) m
+  | iter (m l) : Enumerates l m → SpecRel m (.iter l) m
+  | internal (m) : SpecRel m .internal m
+
+inductive SpecRuns : M → List Ev → Prop
+  | nil (m) : SpecRuns m []
+  | cons (m e m' es) : SpecRel m e m' → SpecRuns m' es → SpecRuns m (e :: es)
+
+def verOf (w : W) (r : Ref) : Option Ver := (w.heap[r]?).map (·.ver)
+
+/-- The abstract event of one concrete call, read off its arguments, its output and the post-state. -/
+def event (w : W) (op : Op) : Ev :=
+  let w' := (step w op).1
+  match op, (step w op).2 with
+  | .add _ r, .unit => match w.heap[r]? with | some x => .add x.id x.ver true | none => .failed
+  | .add _ r, .keyError => match w.heap[r]? with | some x => .add x.id x.ver false | none => .failed
+  | .get _ i, .obj r => .read i (verOf w' r)
+  | .get _ i, .keyError => .read i none
+  | .discard _ r, .unit => match w.heap[r]? with | some x => .discard x.id true | none => .failed
+  | .discard _ r, .keyError => match w.heap[r]? with | some x => .discard x.id false | none => .failed
+  | .commit r, .unit => match w.heap[r]? with
+    | some x => if x.bound then .commit x.id x.ver else .internal
+    | none => .failed
+  | .update r, .unit => match w.heap[r]? with
+    | some x => if x.bound then .refresh x.id (verOf w' r) else .internal
+    | none => .failed
+  | .update r, .fileNotFound => match w.heap[r]? with | some x => .refresh x.id none | none => .failed
+  | .containsId _ i, .bool b => .contains i b
+  | .containsObj _ r, .bool b => match w.heap[r]? with | some x => .contains x.id b | none => .failed
+  | .len _, .nat n => .len n
+  | .iter _, .objs rs => .iter (rs.filterMap (pairOf w'))
+  | .new _ _, .obj _ => .internal
+  | .setver _ _, .unit => .internal
+  | .drop _, .unit => .internal
+  | .gc, .unit => .internal
+  | _, .badRef => .internal      -- the caller named an object it does not hold: not a call (no state change)
+  | _, _ => .failed
+
+def trace (w : W) : List Op → List Ev
+  | [] => []
+  | op :: r => event w op :: trace (step w op).1 r
+
+
+private theorem abs_set (w : W) (i : Id) (v : Ver) : (fun j => AList.get j (AList.set i v w.disk)) = upd (abs w) i (some v) := by
+  funext j
+  by_cases h : j = i
+  · subst h; simp [upd]
+  · simp [abs, upd, h, AList.get_set_other _ _ h]
+
+private theorem abs_erase (w : W) (hI : Inv w) (i : Id) :
+    (fun j => AList.get j (AList.erase i w.disk)) = upd (abs w) i none := by
+  funext j
+  by_cases h : j = i
+  · subst h; simp [upd, AList.get_erase_same_of_nodup hI.diskNodup]
+  · simp [abs, upd, h, AList.get_erase_other _ h]
+
+private theorem get_of_mem {l : List (Id × Ver)} (hn : (AList.keys l).Nodup) {i : Id} {u : Ver} (he : (i, u) ∈ l) :
+    AList.get i l = some u := by
+  induction l with
+  | nil => cases he
+  | cons hd t ih =>
+    obtain ⟨k, v⟩ := hd
+    have hn' : k ∉ AList.keys t ∧ (AList.keys t).Nodup := by
+      simpa [AList.keys, List.nodup_cons] using hn
+    rcases List.mem_cons.1 he with h | he'
+    · cases h; simp [AList.get]
+    · have hk : k ≠ i := by
+        intro h; apply hn'.1; rw [h]; exact AList.mem_keys_of_get (ih hn'.2 he')
+      simp [AList.get, hk, ih hn'.2 he']
+
+private theorem mem_of_get {l : List (Id × Ver)} {i : Id} {u : Ver} (h : AList.get i l = some u) : (i, u) ∈ l := by
+  induction l with
+  | nil => simp [AList.get] at h
+  | cons hd t ih =>
+    obtain ⟨k, v⟩ := hd
+    by_cases hk : k = i
+    · simp [AList.get, hk] at h; simp [hk, h]
+    · simp [AList.get, hk] at h; exact List.mem_cons_of_mem _ (ih h)
+
+private theorem enumerates_disk (w : W) (hI : Inv w) : Enumerates w.disk (abs w) :=
+  ⟨hI.diskNodup, fun _ _ => ⟨fun h => get_of_mem hI.diskNodup h, fun h => mem_of_get h⟩⟩
+
+private theorem iter_post (w : W) (k : Nat) (hI : Inv w) :
+    ∃ w' rs, iter w k = (w', .objs rs) ∧ w'.disk = w.disk ∧ Inv w' ∧ rs.filterMap (pairOf w') = w.disk ∧
+      (∀ k0 i0 r0, Pinned w k0 i0 r0 → Pinned w' k0 i0 r0) := by
+  have hall : ∀ i ∈ AList.keys w.disk, (AList.get i w.disk).isSome := fun i hi => AList.get_isSome_iff_mem_keys.2 hi
+  obtain ⟨w', rs, hit, hd, hI', ha, _, hp⟩ := iterIds_post k (AList.keys w.disk) w hI hall
+  refine ⟨w', rs, by simp [iter, hit], hd, hI', ?_, hp⟩
+  rw [allHold_pairs ha, hd]
+  exact keys_pairs_self w.disk hI.diskNodup
+
+/-- **The representation invariant holds in every reachable state.** -/
+theorem c14_inv_step (w : W) (op : Op) (hI : Inv w) : Inv (step w op).1 := by
+  cases op with
+  | new i v => exact inv_alloc _ hI
+  | setver r v =>
+    simp only [step]
+    cases h : liveObj w r with
+    | none => exact hI
+    | some o => exact inv_modObj hI (liveObj_some h).1 rfl
+  | drop r =>
+    simp only [step]
+    cases h : liveObj w r with
+    | none => exact hI
+    | some o => exact inv_modObj hI (liveObj_some h).1 rfl
+  | gc => exact inv_gc hI
+  | add k r =>
+    simp only [step, add]
+    cases h : liveObj w r with
+    | none => exact hI
+    | some o =>
+      simp only []
+      split
+      · exact hI
+      · have h1 : Inv { w with disk := AList.set o.id o.ver w.disk } := inv_disk hI (AList.nodup_keys_set hI.diskNodup)
+        have ho : ({ w with disk := AList.set o.id o.ver w.disk } : W).heap[r]? = some o := (liveObj_some h).1
+        have h2 := inv_modObj (o' := { o with bound := true }) h1 ho rfl
+        have ho2 : (modObj { w with disk := AList.set o.id o.ver w.disk } r { o with bound := true }).heap[r]? =
+            some { o with bound := true } := by rw [heap_modObj_get _ r r o _ ho]; simp
+        exact inv_cache_set (k := k) h2 ho2 rfl
+  | get k i => exact (get_post w k i hI).inv
+  | discard k r =>
+    simp only [step, discard]
+    cases h : liveObj w r with
+    | none => exact hI
+    | some o =>
+      simp only []
+      split
+      · have h1 : Inv { w with disk := AList.erase o.id w.disk } := inv_disk hI (AList.nodup_keys_erase hI.diskNodup)
+        have ho : ({ w with disk := AList.erase o.id w.disk } : W).heap[r]? = some o := (liveObj_some h).1
+        have h2 := inv_modObj (o' := { o with bound := false }) h1 ho rfl
+        exact inv_cache_erase (k := k) (i := o.id) h2
+      · exact hI
+  | commit r =>
+    simp only [step, commit]
+    cases h : liveObj w r with
+    | none => exact hI
+    | some o =>
+      simp only []
+      split
+      · exact inv_disk hI (AList.nodup_keys_set hI.diskNodup)
+      · exact hI
+  | update r =>
+    simp only [step, update]
+    cases h : liveObj w r with
+    | none => exact hI
+    | some o =>
+      simp only []
+      split
+      · split
+        · exact hI
+        · exact inv_modObj hI (liveObj_some h).1 rfl
+      · exact hI
+  | containsId k i => exact hI
+  | containsObj k r => simp only [step]; split <;> exact hI
+  | len k => exact hI
+  | iter k =>
+    obtain ⟨w', rs, hit, _, hI', _, _⟩ := iter_post w k hI
+    simp only [step, hit]; exact hI'
+
+
+/-- **One call of any store instance = one step of the persistent map.**  (`abs` looks at the directory only,
+    so the claim is about every instance, whatever its cache holds, including instances never used before.) -/
+theorem c14_step_refines (w : W) (op : Op) (hI : Inv w) : SpecRel (abs w) (event w op) (abs (step w op).1) := by
+  cases op with
+  | new i v => exact SpecRel.internal _
+  | setver r v =>
+    simp only [event, step]
+    cases h : liveObj w r <;> exact SpecRel.internal _
+  | drop r =>
+    simp only [event, step]
+    cases h : liveObj w r <;> exact SpecRel.internal _
+  | gc => exact SpecRel.internal _
+  | add k r =>
+    simp only [event, step, add]
+    cases h : liveObj w r with
+    | none => exact SpecRel.internal _
+    | some o =>
+      have ho := (liveObj_some h).1
+      simp only []
+      cases hd : AList.has o.id w.disk with
+      | true =>
+        simp only [if_true, ho]
+        refine SpecRel.addDup _ _ _ ?_
+        simp only [AList.has, Option.isSome_iff_ne_none] at hd; exact hd
+      | false =>
+        simp only [Bool.false_eq_true, if_false, ho]
+        have : abs w o.id = none := by simpa [AList.has, abs] using hd
+        show SpecRel (abs w) _ (fun j => AList.get j (AList.set o.id o.ver w.disk))
+        rw [abs_set w o.id o.ver]
+        exact SpecRel.addOk (abs w) o.id o.ver this
+  | get k i =>
+    have P := get_post w k i hI
+    simp only [event, step]
+    cases hv : AList.get i w.disk with
+    | none =>
+      obtain ⟨h1, h2⟩ := P.miss hv
+      rw [h2, h1]
+      have : (none : Option Ver) = abs w i := by simp [abs, hv]
+      rw [this]; exact SpecRel.read _ _
+    | some v =>
+      obtain ⟨r, o, hout, ho, _, hver, _, _, _⟩ := P.hit v hv
+      rw [hout]
+      simp only [verOf, ho, Option.map_some, hver]
+      have : some v = abs w i := by simp [abs, hv]
+      have hd : abs (get w k i).1 = abs w := by funext j; simp [abs, P.disk]
+      rw [this, hd]; exact SpecRel.read _ _
+  | discard k r =>
+    simp only [event, step, discard]
+    cases h : liveObj w r with
+    | none => exact SpecRel.internal _
+    | some o =>
+      have ho := (liveObj_some h).1
+      simp only []
+      cases hd : AList.has o.id w.disk with
+      | true =>
+        simp only [if_true, ho]
+        show SpecRel (abs w) _ (fun j => AList.get j (AList.erase o.id w.disk))
+        rw [abs_erase w hI o.id]
+        refine SpecRel.discardOk (abs w) o.id ?_
+        simp only [AList.has, Option.isSome_iff_ne_none] at hd; exact hd
+      | false =>
+        simp only [Bool.false_eq_true, if_false, ho]
+        exact SpecRel.discardMissing _ _ (by simpa [AList.has, abs] using hd)
+  | commit r =>
+    simp only [event, step, commit]
+    cases h : liveObj w r with
+    | none => exact SpecRel.internal _
+    | some o =>
+      have ho := (liveObj_some h).1
+      simp only []
+      cases hb : o.bound with
+      | true =>
+        simp only [if_true, ho, hb]
+        show SpecRel (abs w) _ (fun j => AList.get j (AList.set o.id o.ver w.disk))
+        rw [abs_set w o.id o.ver]
+        exact SpecRel.commit (abs w) o.id o.ver
+      | false => simp only [Bool.false_eq_true, if_false, ho, hb]; exact SpecRel.internal _
+  | update r =>
+    simp only [event, step, update]
+    cases h : liveObj w r with
+    | none => exact SpecRel.internal _
+    | some o =>
+      have ho := (liveObj_some h).1
+      simp only []
+      cases hb : o.bound with
+      | false => simp only [Bool.false_eq_true, if_false, ho, hb]; exact SpecRel.internal _
+      | true =>
+        simp only [if_true]
+        cases hv : AList.get o.id w.disk with
+        | none =>
+          simp only [ho]
+          have : (none : Option Ver) = abs w o.id := by simp [abs, hv]
+          rw [this]; exact SpecRel.refresh _ _
+        | some v =>
+          simp only [ho, hb, if_true, verOf]
+          have hh : ∀ o' : Obj, (w.heap.set r o')[r]? = some o' := by
+            intro o'
+            have := heap_modObj_get w r r o o' ho
+            simpa [modObj] using this
+          rw [hh]
+          show SpecRel (abs w) _ (abs w)
+          have : some v = abs w o.id := by simp [abs, hv]
+          simp only [Option.map_some]
+          rw [this]; exact SpecRel.refresh _ _
+  | containsId k i => exact SpecRel.contains _ _
+  | containsObj k r =>
+    simp only [event, step]
+    cases h : liveObj w r with
+    | none => exact SpecRel.internal _
+    | some o =>
+      have ho := (liveObj_some h).1
+      simp only [ho]; exact SpecRel.contains _ _
+  | len k => exact SpecRel.len _ _ (enumerates_disk w hI)
+  | iter k =>
+    obtain ⟨w', rs, hit, hd, _, hp, _⟩ := iter_post w k hI
+    simp only [event, step, hit, hp]
+    have : abs w' = abs w := by funext j; simp [abs, hd]
+    rw [this]; exact SpecRel.iter _ _ (enumerates_disk w hI)
+
+/-- **Refinement, all histories.**  Every finite sequence of calls — add, commit, update, retrieval, discard, membership,
+    length, iteration, interleaved with object construction, local edits, dropped references and garbage collections,
+    through any number of store instances — is a run of the persistent map: what was added or last committed is what any
+    instance reads back; duplicates are rejected; missing identifiers raise KeyError; update() delivers the stored content. -/
+theorem c14_refines_persistent_map (ops : List Op) : SpecRuns (fun _ => none) (trace init ops) := by
+  suffices h : ∀ w, Inv w → SpecRuns (abs w) (trace w ops) by
+    have := h init inv_init
+    have e : abs init = fun _ => none := by funext i; rfl
+    rw [e] at this; exact this
+  induction ops with
+  | nil => intro w _; exact SpecRuns.nil _
+  | cons op r ih =>
+    intro w hI
+    exact SpecRuns.cons _ _ _ _ (c14_step_refines w op hI) (ih _ (c14_inv_step w op hI))
+
+
+/-! ### Identity of live replicas -/
+
+theorem pinned_modObj {w : W} {k0 : Nat} {i0 : Id} {r0 r : Ref} {o o' : Obj} (hp : Pinned w k0 i0 r0)
+    (h : w.heap[r]? = some o) (hid : o'.id = o.id) (hkeep : r = r0 → o'.bound = o.bound ∧ o'.live = o.live) :
+    Pinned (modObj w r o') k0 i0 r0 := by
+  obtain ⟨hc, ⟨x, hx, hxi, hxb, hxl⟩, hd⟩ := hp
+  refine ⟨hc, ?_, hd⟩
+  rw [heap_modObj_get w r r0 o o' h]
+  by_cases e : r0 = r
+  · subst e; rw [hx] at h; injection h with h; subst h
+    obtain ⟨h1, h2⟩ := hkeep rfl
+    exact ⟨o', by simp, by rw [hid, hxi], by rw [h1, hxb], by rw [h2, hxl]⟩
+  · exact ⟨x, by simp [e, hx], hxi, hxb, hxl⟩
+
+theorem pinned_disk {w : W} {k0 : Nat} {i0 : Id} {r0 : Ref} (d : List (Id × Ver)) (hp : Pinned w k0 i0 r0)
+    (hd : (AList.get i0 d).isSome) : Pinned { w with disk := d } k0 i0 r0 :=
+  ⟨hp.1, hp.2.1, hd⟩
+
+theorem pinned_modCache {w : W} {k0 : Nat} {i0 : Id} {r0 : Ref} (k : Nat) (c : List (Id × Ref)) (hp : Pinned w k0 i0 r0)
+    (hc : k = k0 → AList.get i0 c = some r0) : Pinned (modCache w k c) k0 i0 r0 := by
+  refine ⟨?_, hp.2.1, hp.2.2⟩
+  by_cases e : k0 = k
+  · subst e; rw [cacheOf_modCache_same]; exact hc rfl
+  · rw [cacheOf_modCache_other _ _ e]; exact hp.1
+
+/-- the calls that end the life of replica `r` of identifier `i`: the application drops it, or the identifier is
+    discarded (through any instance) -/
+def touches (w : W) (i : Id) (r : Ref) : Op → Bool
+  | .drop r' => r' == r
+  | .discard _ x => match w.heap[x]? with
+    | some o => o.id == i
+    | none => false
+  | _ => false
+
+theorem pinned_step (w : W) (op : Op) (k0 : Nat) (i0 : Id) (r0 : Ref) (hI : Inv w) (hp : Pinned w k0 i0 r0)
+    (hq : touches w i0 r0 op = false) : Pinned (step w op).1 k0 i0 r0 := by
+  have hp' := hp
+  obtain ⟨hc, ⟨x, hx, hxi, hxb, hxl⟩, hd⟩ := hp'
+  cases op with
+  | new i v =>
+    exact ⟨hc, ⟨x, heap_alloc_get w _ r0 x hx, hxi, hxb, hxl⟩, hd⟩
+  | setver r v =>
+    simp only [step]
+    cases h : liveObj w r with
+    | none => exact hp
+    | some o => exact pinned_modObj hp (liveObj_some h).1 rfl (fun _ => ⟨rfl, rfl⟩)
+  | drop r =>
+    simp only [step]
+    cases h : liveObj w r with
+    | none => exact hp
+    | some o =>
+      refine pinned_modObj hp (liveObj_some h).1 rfl (fun e => ?_)
+      simp [touches, e] at hq
+  | gc =>
+    refine ⟨?_, ⟨x, hx, hxi, hxb, hxl⟩, hd⟩
+    show AList.get i0 (cacheOf (gc w) k0) = some r0
+    rw [cacheOf_gc]
+    refine get_filter_of_nodup _ (hI.cacheNodup k0) hc ?_
+    simp [isLive, liveObj, hx, hxl]
+  | add k r =>
+    simp only [step, add]
+    cases h : liveObj w r with
+    | none => exact hp
+    | some o =>
+      have ho := (liveObj_some h).1
+      simp only []
+      cases hh : AList.has o.id w.disk with
+      | true => simpa using hp
+      | false =>
+        simp only [Bool.false_eq_true, if_false]
+        have hne : i0 ≠ o.id := by
+          intro e; rw [← e] at hh; simp [AList.has] at hh; rw [hh] at hd; cases hd
+        have h1 : Pinned { w with disk := AList.set o.id o.ver w.disk } k0 i0 r0 :=
+          pinned_disk _ hp (by rw [AList.get_set_other _ _ hne]; exact hd)
+        have ho1 : ({ w with disk := AList.set o.id o.ver w.disk } : W).heap[r]? = some o := ho
+        have h2 := pinned_modObj (o' := { o with bound := true }) h1 ho1 rfl (by
+          intro e; subst e; rw [hx] at ho; injection ho with ho; subst ho; exact ⟨hxb.symm, rfl⟩)
+        refine pinned_modCache k _ h2 ?_
+        intro e; subst e
+        show AList.get i0 (AList.set o.id r (cacheOf w k)) = some r0
+        rw [AList.get_set_other _ _ hne]; exact hc
+  | get k i => exact get_pinned k i hI hp
+  | discard k r =>
+    simp only [step, discard]
+    cases h : liveObj w r with
+    | none => exact hp
+    | some o =>
+      have ho := (liveObj_some h).1
+      have hne : i0 ≠ o.id := by
+        intro e; simp [touches, ho, e] at hq
+      simp only []
+      cases hh : AList.has o.id w.disk with
+      | false => simpa using hp
+      | true =>
+        simp only [if_true]
+        have h1 : Pinned { w with disk := AList.erase o.id w.disk } k0 i0 r0 :=
+          pinned_disk _ hp (by rw [AList.get_erase_other _ hne]; exact hd)
+        have ho1 : ({ w with disk := AList.erase o.id w.disk } : W).heap[r]? = some o := ho
+        have h2 := pinned_modObj (o' := { o with bound := false }) h1 ho1 rfl (by
+          intro e; subst e; rw [hx] at ho; injection ho with ho; subst ho; exact absurd hxi.symm hne)
+        refine pinned_modCache k _ h2 ?_
+        intro e; subst e
+        show AList.get i0 (AList.erase o.id (cacheOf w k)) = some r0
+        rw [AList.get_erase_other _ hne]; exact hc
+  | commit r =>
+    simp only [step, commit]
+    cases h : liveObj w r with
+    | none => exact hp
+    | some o =>
+      simp only []
+      split
+      · refine pinned_disk _ hp ?_
+        by_cases e : i0 = o.id
+        · rw [e]; simp
+        · rw [AList.get_set_other _ _ e]; exact hd
+      · exact hp
+  | update r =>
+    simp only [step, update]
+    cases h : liveObj w r with
+    | none => exact hp
+    | some o =>
+      simp only []
+      split
+      · split
+        · exact hp
+        · exact pinned_modObj hp (liveObj_some h).1 rfl (fun _ => ⟨rfl, rfl⟩)
+      · exact hp
+  | containsId k i => exact hp
+  | containsObj k r => simp only [step]; split <;> exact hp
+  | len k => exact hp
+  | iter k =>
+    obtain ⟨w', rs, hit, _, _, _, hpin⟩ := iter_post w k hI
+    simp only [step, hit]; exact hpin _ _ _ hp
+
+/-- no call of the history ends the life of replica `r` of identifier `i` -/
+def Quiet (i : Id) (r : Ref) : W → List Op → Prop
+  | _, [] => True
+  | w, op :: rest => touches w i r op = false ∧ Quiet i r (step w op).1 rest
+
+theorem inv_run (w : W) (ops : List Op) (hI : Inv w) : Inv (run w ops) := by
+  induction ops generalizing w with
+  | nil => exact hI
+  | cons op r ih => exact ih _ (c14_inv_step w op hI)
+
+theorem pinned_run (w : W) (ops : List Op) (k0 : Nat) (i0 : Id) (r0 : Ref) (hI : Inv w) (hp : Pinned w k0 i0 r0)
+    (hq : Quiet i0 r0 w ops) : Pinned (run w ops) k0 i0 r0 := by
+  induction ops generalizing w with
+  | nil => exact hp
+  | cons op r ih => exact ih _ (c14_inv_step w op hI) (pinned_step w op k0 i0 r0 hI hp hq.1) hq.2
+
+/-- a successful retrieval pins the returned object -/
+theorem pinned_of_get (w : W) (k : Nat) (i : Id) (r : Ref) (hI : Inv w) (h : (get w k i).2 = .obj r) :
+    Pinned (get w k i).1 k i r := by
+  have P := get_post w k i hI
+  cases hv : AList.get i w.disk with
+  | none => rw [(P.miss hv).2] at h; cases h
+  | some v =>
+    obtain ⟨r', o, hout, ho, hid, _, hb, hl, hc⟩ := P.hit v hv
+    rw [hout] at h; injection h with h; subst h
+    exact ⟨hc, ⟨o, ho, hid, hb, hl⟩, by rw [P.disk, hv]; rfl⟩
+
+/-- **Same object, refreshed.**  Once instance `k` has returned object `r` for identifier `i`, then after ANY further
+    history — through this and other instances, with local edits, commits by others, garbage collections — in which the
+    application does not drop `r` and nobody discards `i`, retrieving `i` through `k` returns that same object `r`
+    (never a second copy), and `r` then holds the stored content. -/
+theorem c14_same_object (w : W) (k : Nat) (i : Id) (r : Ref) (ops : List Op) (hI : Inv w)
+    (hget : (step w (.get k i)).2 = .obj r) (hq : Quiet i r (step w (.get k i)).1 ops) :
+    let w2 := run (step w (.get k i)).1 ops
+    (step w2 (.get k i)).2 = .obj r ∧
+    ∃ o, (step w2 (.get k i)).1.heap[r]? = some o ∧ o.id = i ∧ abs w2 i = some o.ver := by
+  intro w2
+  have hI1 : Inv (step w (.get k i)).1 := c14_inv_step w _ hI
+  have hI2 : Inv w2 := inv_run _ ops hI1
+  have hp2 : Pinned w2 k i r := pinned_run _ ops k i r hI1 (pinned_of_get w k i r hI hget) hq
+  have P := get_post w2 k i hI2
+  obtain ⟨hc, ⟨x, hx, hxi, hxb, hxl⟩, hd⟩ := hp2
+  have hout := P.same r hc ⟨x, hx, hxb⟩ hd
+  refine ⟨hout, ?_⟩
+  cases hv : AList.get i w2.disk with
+  | none => rw [hv] at hd; cases hd
+  | some v =>
+    obtain ⟨r', o, hout', ho, hid, hver, _, _, _⟩ := P.hit v hv
+    have : (get w2 k i).2 = .obj r := hout
+    rw [hout'] at this; injection this with this; subst this
+    exact ⟨o, ho, hid, by simp [abs, hv, hver]⟩
+
+
+/-! ### Corollaries in the words of the property -/
+
+/-- **Any instance reads back the stored document** — whatever its cache holds, also an instance never used before
+    (`k` beyond every instance used so far): an object with that identifier and the stored content; `KeyError` (and no
+    change at all) when there is no document. -/
+theorem c14_read_back_any_instance (w : W) (k : Nat) (i : Id) (hI : Inv w) :
+    match abs w i with
+    | some v => ∃ r o, (step w (.get k i)).2 = .obj r ∧ (step w (.get k i)).1.heap[r]? = some o ∧ o.id = i ∧ o.ver = v
+    | none => step w (.get k i) = (w, .keyError) := by
+  have P := get_post w k i hI
+  cases hv : AList.get i w.disk with
+  | none =>
+    have : abs w i = none := hv
+    rw [this]
+    obtain ⟨h1, h2⟩ := P.miss hv
+    exact Prod.ext h1 h2
+  | some v =>
+    have : abs w i = some v := hv
+    rw [this]
+    obtain ⟨r, o, hout, ho, hid, hver, _⟩ := P.hit v hv
+    exact ⟨r, o, hout, ho, hid, hver⟩
+
+/-- What was added is stored: a successful add puts exactly the object's content under its identifier
+    (so, by `c14_read_back_any_instance`, every instance reads it back). -/
+theorem c14_add_stores (w : W) (k : Nat) (r : Ref) (h : (step w (.add k r)).2 = .unit) :
+    ∃ o, w.heap[r]? = some o ∧ abs w o.id = none ∧ abs (step w (.add k r)).1 o.id = some o.ver := by
+  simp only [step, add] at h ⊢
+  cases hl : liveObj w r with
+  | none => simp [hl] at h
+  | some o =>
+    simp only [hl] at h ⊢
+    cases hh : AList.has o.id w.disk with
+    | true => simp [hh] at h
+    | false =>
+      simp only [Bool.false_eq_true, if_false]
+      exact ⟨o, (liveObj_some hl).1, by simpa [AList.has, abs] using hh, by simp [abs]⟩
+
+/-- What was committed is stored. -/
+theorem c14_commit_stores (w : W) (r : Ref) (o : Obj) (hl : liveObj w r = some o) (hb : o.bound = true) :
+    (step w (.commit r)).2 = .unit ∧ abs (step w (.commit r)).1 o.id = some o.ver := by
+  simp [step, commit, hl, hb, abs]
+
+/-- Duplicates are rejected, and nothing changes. -/
+theorem c14_duplicate_rejected (w : W) (k : Nat) (r : Ref) (o : Obj) (hl : liveObj w r = some o)
+    (hs : abs w o.id ≠ none) : step w (.add k r) = (w, .keyError) := by
+  have : AList.has o.id w.disk = true := by
+    simp only [AList.has, Option.isSome_iff_ne_none]; exact hs
+  simp [step, add, hl, this]
+
+/-- Discarding an identifier that is not stored raises `KeyError`, and nothing changes. -/
+theorem c14_discard_missing (w : W) (k : Nat) (r : Ref) (o : Obj) (hl : liveObj w r = some o)
+    (hs : abs w o.id = none) : step w (.discard k r) = (w, .keyError) := by
+  have : AList.has o.id w.disk = false := by simpa [AList.has, abs] using hs
+  simp [step, discard, hl, this]
+
+/-- Discarding a stored identifier succeeds through ANY instance — also one that never fetched the object: the
+    document is gone and the object's source is cleared.  (On the pinned tree the file was removed and `KeyError`
+    raised afterwards, leaving the source set.) -/
+theorem c14_discard_through_any_instance (w : W) (k : Nat) (r : Ref) (o : Obj) (hI : Inv w)
+    (hl : liveObj w r = some o) (hs : abs w o.id ≠ none) :
+    (step w (.discard k r)).2 = .unit ∧ abs (step w (.discard k r)).1 o.id = none ∧
+    (step w (.discard k r)).1.heap[r]? = some { o with bound := false } := by
+  have hh : AList.has o.id w.disk = true := by
+    simp only [AList.has, Option.isSome_iff_ne_none]; exact hs
+  have ho := (liveObj_some hl).1
+  simp only [step, discard, hl, hh, if_true, abs, true_and]
+  refine ⟨AList.get_erase_same_of_nodup hI.diskNodup, ?_⟩
+  have := heap_modObj_get w r r o { o with bound := false } ho
+  simpa [modObj] using this
+
+/-- **update() brings a stale live object to the stored state.** -/
+theorem c14_update_refreshes (w : W) (r : Ref) (o : Obj) (v : Ver) (hl : liveObj w r = some o) (hb : o.bound = true)
+    (hs : abs w o.id = some v) :
+    (step w (.update r)).2 = .unit ∧ (step w (.update r)).1.heap[r]? = some { o with ver := v } ∧
+    abs (step w (.update r)).1 = abs w := by
+  have ho := (liveObj_some hl).1
+  have hs' : AList.get o.id w.disk = some v := hs
+  simp only [step, update, hl, hb, if_true, hs', true_and]
+  refine ⟨?_, rfl⟩
+  have := heap_modObj_get w r r o { o with ver := v } ho
+  simpa [modObj, hb] using this
+
+/-- Iteration never fails and yields every stored document exactly once, with the stored content; `len` agrees. -/
+theorem c14_iter_total (w : W) (k : Nat) (hI : Inv w) :
+    ∃ rs, (step w (.iter k)).2 = .objs rs ∧ rs.filterMap (pairOf (step w (.iter k)).1) = w.disk ∧
+      rs.length = w.disk.length ∧ abs (step w (.iter k)).1 = abs w := by
+  obtain ⟨w', rs, hit, hd, _, hp, _⟩ := iter_post w k hI
+  have habs : abs w' = abs w := by funext j; simp [abs, hd]
+  refine ⟨rs, by simp [step, hit], by simp [step, hit, hp], ?_, by simp [step, hit, habs]⟩
+  have hl := congrArg List.length hp
+  have hle : (rs.filterMap (pairOf w')).length ≤ rs.length := List.length_filterMap_le _ _
+  -- every returned object exists, so nothing is filtered out
+  obtain ⟨w'', rs', hit', _, _, ha, _, _⟩ := iterIds_post k (AList.keys w.disk) w hI
+    (fun i hi => AList.get_isSome_iff_mem_keys.2 hi)
+  have e : rs' = rs := by
+    have : iter w k = (w'', .objs rs') := by simp [iter, hit']
+    rw [hit] at this; injection this with _ this; injection this with this; exact this.symm
+  subst e
+  have hlen : ∀ {l : List Id} {rs : List Ref}, AllHold w'' l rs → rs.length = l.length := by
+    intro l rs a; induction a with
+    | nil => rfl
+    | cons _ _ ih => simp [ih]
+  rw [hlen ha]; simp [AList.keys]
+
+
+/-! ### Non-vacuity -/
+
+/-- two instances, a stale replica, update(), a dropped and collected replica, an instance opened later -/
+def demo : List Op :=
+  [.new ['a'] 1, .add 0 0, .get 1 ['a'], .setver 1 5, .commit 1, .get 0 ['a'], .update 0, .add 1 1,
+   .drop 0, .gc, .get 0 ['a'], .get 0 ['a'], .iter 2, .discard 2 1, .get 0 ['a'], .len 0]
+
+example : trace init demo =
+    [.internal, .add ['a'] 1 true, .read ['a'] (some 1), .internal, .commit ['a'] 5, .read ['a'] (some 5),
+     .refresh ['a'] (some 5), .add ['a'] 5 false, .internal, .internal, .read ['a'] (some 5), .read ['a'] (some 5),
+     .iter [(['a'], 5)], .discard ['a'] true, .read ['a'] none, .len 0] := by decide
+
+-- the outputs: object 0 is returned while alive; after drop + gc a new object 2 is made and then returned again
+example : (step (run init (demo.take 5)) (.get 0 ['a'])).2 = .obj 0 := by decide
+example : (step (run init (demo.take 10)) (.get 0 ['a'])).2 = .obj 2 := by decide
+example : (step (run init (demo.take 11)) (.get 0 ['a'])).2 = .obj 2 := by decide
+example : Quiet ['a'] 2 (step (run init (demo.take 10)) (.get 0 ['a'])).1 [.get 1 ['a'], .gc, .setver 1 9, .commit 1] := by
+  decide
+example : Inv (run init demo) := inv_run _ _ inv_init
+
 end Basyx.FileStore
+
+namespace Basyx.FileStore.Conc
+
+def bfs (v : Variant) : Nat → List S → List S → List S
+  | 0, _, seen => seen
+  | _ + 1, [], seen => seen
+  | f + 1, s :: front, seen =>
+    let n0 := stepT v s false
+    let n1 := stepT v s true
+    let fs0 := if seen.contains n0 then (front, seen) else (n0 :: front, n0 :: seen)
+    let fs1 := if fs0.2.contains n1 then fs0 else (n1 :: fs0.1, n1 :: fs0.2)
+    bfs v f fs1.1 fs1.2
+
+/-- when both calls are retrievals of a stored identifier, both return an object and it is the same one -/
+def twoGets (init s : S) : Bool :=
+  !(init.file && init.t0.prog == .get && init.t1.prog == .get) ||
+  (match s.t0.res, s.t1.res with
+   | .ref a, .ref b => a == b
+   | _, _ => false)
+
+/-- the states reachable from `init` under any schedule (computed; that it is closed is checked, not assumed) -/
+def reach (v : Variant) (init : S) : List S := bfs v 400 [init] [init]
+
+def closedB (v : Variant) (R : List S) : Bool :=
+  R.all (fun s => R.contains (stepT v s false) && R.contains (stepT v s true))
+
+/-- `R` contains the start state, is closed under both threads' steps, and from each of its states running the two
+    threads to completion ends with both calls finished and coherent results -/
+def goodB (v : Variant) (init : S) (R : List S) : Bool :=
+  R.contains init && closedB v R &&
+  R.all (fun s => bothDone (finish v s) && coherent init (finish v s) && twoGets init (finish v s))
+
+theorem run_mem_of_closed {v : Variant} {R : List S} (hc : closedB v R = true) :
+    ∀ (sched : List Bool) (s : S), s ∈ R → runS v s sched ∈ R := by
+  intro sched
+  induction sched with
+  | nil => intro s h; exact h
+  | cons t rest ih =>
+    intro s h
+    apply ih
+    have := (List.all_eq_true.1 hc) s h
+    simp only [Bool.and_eq_true, List.contains_iff_mem] at this
+    cases t
+    · exact this.1
+    · exact this.2
+
+set_option maxRecDepth 100000 in
+theorem fixed_all_good : inits.all (fun i => goodB .fixed i (reach .fixed i)) = true := by decide +kernel
+
+/-- **All schedules.**  Two threads of one store instance each retrieve or add the same identifier (every start
+    configuration of `inits`); they advance between the lock/cache yield points in ANY order (`sched` is an arbitrary
+    list of thread numbers, blocked threads stutter), then run to completion.  Both calls finish; whatever a retrieval
+    returned is the single replica the instance's cache holds afterwards — so two retrievals returned the SAME object —
+    refreshed; and a retrieval of an existing document does not raise. -/
+theorem c14_two_threads (init : S) (hi : init ∈ inits) (sched : List Bool) :
+    bothDone (finish .fixed (runS .fixed init sched)) = true ∧
+    coherent init (finish .fixed (runS .fixed init sched)) = true ∧
+    twoGets init (finish .fixed (runS .fixed init sched)) = true := by
+  have hg := (List.all_eq_true.1 fixed_all_good) init hi
+  simp only [goodB, Bool.and_eq_true, List.contains_iff_mem] at hg
+  obtain ⟨⟨hmem, hclosed⟩, hall⟩ := hg
+  have := (List.all_eq_true.1 hall) _ (run_mem_of_closed hclosed sched init hmem)
+  simp only [Bool.and_eq_true] at this
+  exact ⟨this.1.1, this.1.2, this.2⟩
+
+/-- In the words of the property: two threads retrieve a stored identifier through one instance — whatever the cache
+    held before, under any schedule both get an object, and it is the same object. -/
+theorem c14_two_gets_same_object (init : S) (hi : init ∈ inits) (hf : init.file = true)
+    (h0 : init.t0.prog = .get) (h1 : init.t1.prog = .get) (sched : List Bool) :
+    ∃ r, (finish .fixed (runS .fixed init sched)).t0.res = .ref r ∧
+         (finish .fixed (runS .fixed init sched)).t1.res = .ref r := by
+  have := (c14_two_threads init hi sched).2.2
+  simp only [twoGets, hf, h0, h1, beq_self_eq_true, Bool.and_self, Bool.not_true, Bool.false_or] at this
+  generalize (finish .fixed (runS .fixed init sched)) = s at this
+  cases ha : s.t0.res <;> cases hb : s.t1.res <;> simp [ha, hb] at this
+  subst this
+  exact ⟨_, rfl, rfl⟩
+
+/-- **The pinned protocol (cache insert after releasing the lock) is not coherent**: on the schedule
+    load₀ load₁ acquire₀ check₀ release₀ acquire₁ check₁ release₁ insert₀ insert₁ both threads miss the cache and each
+    returns its own copy — two live replicas of one identifier.  (Replay of the finding.) -/
+theorem c14_race_two_copies :
+    let s := finish .pinned (runS .pinned (mk true none false false .get .get)
+      [false, true, false, false, false, true, true, true, false, true])
+    s.t0.res = .ref .l0 ∧ s.t1.res = .ref .l1 ∧ coherent (mk true none false false .get .get) s = false := by
+  decide
+
+
+/-! ### Non-vacuity -/
+
+example : inits.length = 40 := by decide
+example : mk true none false false .get .get ∈ inits := by decide
+-- on the schedule that breaks the pinned protocol the repaired one makes thread 1 wait and return thread 0's object
+example : (finish .fixed (runS .fixed (mk true none false false .get .get)
+    [false, true, false, false, false, true, true, true, false, true])).t1.res = .ref .l0 := by decide
+-- add ‖ get: the retrieval either fails (document not yet there) or returns the added object itself
+example : (finish .fixed (runS .fixed (mk false none false false .add .get) [false, false, true, true])).t1.res = .ref .x0 := by
+  decide
+example : (finish .fixed (runS .fixed (mk false none false false .add .get) [true, false])).t1.res = .keyError := by decide
+
+end Basyx.FileStore.Conc
